@@ -24,6 +24,7 @@ type Clause struct {
 type LoopSpec struct {
 	Invariants []*Clause
 	Decreases  *Clause
+	AtEntry    []*Clause // "loop k: atentry e"
 	Commutes   bool     // "loop k: commutes on T1, T2": order independence of a map-range loop (commute.go)
 	CommuteCont bool    // "commutes oncontinue ...": places compared at the back edge only
 	CommuteOn  []*SExpr // places (modifies-target syntax) that must not depend on the visiting order
@@ -282,6 +283,14 @@ func parseContractFile(path, pkgPath string) (*ContractFile, error) {
 						return nil, err
 					}
 					ls.Invariants = append(ls.Invariants, c)
+				case strings.HasPrefix(r2, "atentry"):
+					// "loop k: atentry e": e holds when the loop is first reached (an assertion at that program
+					// point: checked there, not assumed inside the loop and not required of the back edges)
+					c, err := mkClause(strings.TrimSpace(r2[len("atentry"):]), s.line)
+					if err != nil {
+						return nil, err
+					}
+					ls.AtEntry = append(ls.AtEntry, c)
 				case strings.HasPrefix(r2, "decreases"):
 					c, err := mkClause(strings.TrimSpace(r2[len("decreases"):]), s.line)
 					if err != nil {
@@ -309,7 +318,7 @@ func parseContractFile(path, pkgPath string) (*ContractFile, error) {
 						}
 					}
 				default:
-					return nil, fmt.Errorf("%s:%d: loop clause must be invariant, decreases or commutes", path, s.line)
+					return nil, fmt.Errorf("%s:%d: loop clause must be invariant, atentry, decreases or commutes", path, s.line)
 				}
 			case "option":
 				for _, o := range strings.Fields(rest) {
